@@ -17,6 +17,8 @@
 //! (or any non-101 HTTP answer: the property only says "closed without an upgrade").
 use hv::util;
 use humphrey::http::{Request, Response, StatusCode};
+use humphrey::monitor::event::{Event, EventType};
+use humphrey::monitor::MonitorConfig;
 use humphrey::stream::Stream;
 use humphrey::{App, SubApp};
 use std::io::Write;
@@ -147,27 +149,45 @@ fn start(ops: &[Op], tag: &str) -> Result<Running, String> {
     for _attempt in 0..8 {
         let port = free_port();
         let (app, tx) = build(ops, tag, 3);
+        let (mtx, mrx) = channel::<Event>();
+        let app = app.with_monitor(MonitorConfig::new(mtx).with_subscription_to(EventType::ConnectionSuccess));
         let addr = format!("127.0.0.1:{}", port);
         let handle = thread::spawn(move || app.run(addr).is_ok());
-        let deadline = Instant::now() + Duration::from_secs(10);
+        let deadline = Instant::now() + Duration::from_secs(15);
         let sa: SocketAddr = format!("127.0.0.1:{}", port).parse().unwrap();
         let mut ok = false;
-        while Instant::now() < deadline {
+        // Ready means: OUR app reported (MonitorConfig, ConnectionSuccess) that it accepted OUR probe connection.
+        // A successful connect alone proves nothing: when the port was taken between free_port() and the bind
+        // inside App::run, the connect reaches somebody else's listener while our thread has not failed yet.
+        'wait: while Instant::now() < deadline {
             if handle.is_finished() {
                 break; // bind failed (port taken in between): try another port
             }
             match TcpStream::connect_timeout(&sa, Duration::from_millis(500)) {
-                Ok(s) => {
-                    drop(s);
-                    thread::sleep(Duration::from_millis(2));
-                    if !handle.is_finished() {
-                        ok = true;
+                Ok(probe) => {
+                    let me = probe.local_addr().ok();
+                    let until = Instant::now() + Duration::from_secs(5);
+                    while Instant::now() < until {
+                        match mrx.recv_timeout(Duration::from_millis(20)) {
+                            Ok(ev) => {
+                                if ev.kind == EventType::ConnectionSuccess && ev.peer.is_some() && ev.peer == me {
+                                    ok = true;
+                                    break 'wait;
+                                }
+                            }
+                            Err(_) => {
+                                if handle.is_finished() {
+                                    break 'wait;
+                                }
+                            }
+                        }
                     }
-                    break;
+                    break; // connected, but not to our app
                 }
                 Err(_) => thread::sleep(Duration::from_millis(1)),
             }
         }
+        drop(mrx);
         if ok {
             return Ok(Running { port, tx, handle });
         }
